@@ -113,7 +113,9 @@ const SIGS: [(&str, Option<Number>); 9] = [
 const OP_SIGS: [&str; 6] = ["EXIT", "INT", "QUIT", "TERM", "URG", "USR1"];
 const FILES: [&str; 2] = ["f1", "f2"];
 /// fd 20 is there to sit above a lowered RLIMIT_NOFILE
-const FDS: [&str; 4] = ["3", "4", "5", "20"];
+// 10 = `MIN_INTERNAL_FD`: where a job-control shell keeps its terminal (CLOEXEC) and where the redirection engine saves
+// a target; as the TARGET of `N>&M` it is not accepted (the `bg` rendering could not close a copy of a pipe end there)
+const FDS: [&str; 5] = ["3", "4", "5", "20", "10"];
 const LIMITS: [&str; 3] = ["16", "18", "unlimited"];
 const KINDS: [&str; 6] = ["paren", "subst", "pipeF", "pipeM", "pipeL", "async"];
 const TRACKED_VARS: [&str; 5] = ["va", "vb", "vc", "PWD", "OLDPWD"];
@@ -258,7 +260,7 @@ fn render_op(t: &[String]) -> Option<String> {
         },
         ("fdw", 3) if is_in(a(1)?, &FDS) && is_in(a(2)?, &FILES) => format!("exec {}>|/o/{}", t[1], t[2]),
         ("fdr", 2) if is_in(a(1)?, &FDS) => format!("exec {}</o/in", t[1]),
-        ("fdd", 3) if is_in(a(1)?, &FDS) && (is_in(a(2)?, &FDS) || is_in(a(2)?, &["1", "2"])) => {
+        ("fdd", 3) if is_in(a(1)?, &FDS) && t[1] != "10" && (is_in(a(2)?, &FDS) || is_in(a(2)?, &["1", "2"])) => {
             format!("exec {}>&{}", t[1], t[2])
         }
         ("fdc", 2) if is_in(a(1)?, &FDS) => format!("exec {}>&-", t[1]),
@@ -902,7 +904,8 @@ fn oracle(c: &Case, r: &Run, control: Option<&Run>) -> String {
     let portable_on = c.all_ops().any(|t| t[0] == "opt+" && t[1] == "portable");
     let may_fail = |ops: &[Vec<String>]| -> bool {
         ops.iter().any(|t| match t[0].as_str() {
-            "fdw" | "fdr" => t[1] == "20" && limit_lowered,
+            // (descriptor 10 may be the terminal's, CLOEXEC: `ReservedFd`)
+            "fdw" | "fdr" | "fdc" => (t[1] == "20" && limit_lowered) || (t[1] == "10" && c.tty),
             "fdd" => (t[1] == "20" && limit_lowered) || is_in(&t[2], &FDS),
             "opt+" | "opt-" => portable_on && is_in(&t[1], &NONPORTABLE_OPTS),
             _ => false,
@@ -1514,6 +1517,8 @@ struct Abs {
     errexit: bool,
     /// the soft RLIMIT_NOFILE is below 20
     limited: bool,
+    /// the case has a controlling terminal (`T:1`): descriptor 10 may become the shell's CLOEXEC terminal descriptor
+    tty: bool,
     /// defined aliases
     aliases: Vec<String>,
     /// condition -> 'd' | 'i' | 'c'
@@ -1616,6 +1621,11 @@ fn gen_op(rng: &mut Rng, abs: &mut Abs, fam: usize, phase: char) -> Option<Strin
         }
         13 => {
             let mut fd = pick(rng, &FDS);
+            // descriptor 10: drawn less often; with a terminal around, only where the shell may fail (a CLOEXEC
+            // target or source is a redirection error)
+            if fd == "10" && ((abs.tty && !may_fail) || rng.chance(1, 2)) {
+                fd = "4";
+            }
             // a descriptor at or above the soft limit cannot be opened (it can still be closed)
             if fd == "20" && abs.limited && rng.chance(3, 4) {
                 fd = "3";
@@ -1638,6 +1648,21 @@ fn gen_op(rng: &mut Rng, abs: &mut Abs, fam: usize, phase: char) -> Option<Strin
                     abs.open.retain(|x| x != fd);
                     abs.ronly.retain(|x| x != fd);
                     format!("fdc {fd}")
+                }
+                1 if fd == "10" => {
+                    // never the target of `N>&M`; as its source
+                    let n = pick(rng, &["3", "4", "5"]);
+                    let ok = abs.open.iter().any(|x| x == "10") && !abs.ronly.iter().any(|x| x == "10") && !abs.tty;
+                    if !ok && !may_fail {
+                        return None;
+                    }
+                    if ok {
+                        abs.ronly.retain(|x| x != n);
+                        if !abs.open.iter().any(|x| x == n) {
+                            abs.open.push(n.to_string());
+                        }
+                    }
+                    format!("fdd {n} 10")
                 }
                 1 => {
                     if may_fail && rng.chance(1, 10) {
@@ -1751,7 +1776,7 @@ fn gen_case(rng: &mut Rng, pro_fams: &[usize], kinds: &[&str], child_fams: &[usi
     if raises {
         gen_flags(rng, &mut parts);
     }
-    let mut abs = Abs::default();
+    let mut abs = Abs { tty: parts.iter().any(|p| p == "T:1"), ..Default::default() };
     for &f in pro_fams {
         if let Some(op) = gen_op(rng, &mut abs, f, 'P') {
             parts.push(format!("P:{op}"));
@@ -2073,6 +2098,20 @@ fn main() {
                     }
                     cases.push(parts.join("; "));
                 }
+            }
+        }
+    }
+    // (1f) descriptor 10 (`MIN_INTERNAL_FD`): the CLOEXEC terminal descriptor of a job-control shell is a reserved
+    // target and source of redirections (the subshell's `exec` fails); occupied by the user, the terminal goes to 11
+    // and the saved copies of the redirection engine to the next free one
+    for (i, k) in KINDS.iter().enumerate() {
+        for (v, op) in ["fdw 10 f1", "fdr 10", "fdc 10", "fdd 3 10"].iter().enumerate() {
+            let k2 = KINDS[(i + v + 1) % nk];
+            cases.push(format!("T:1; P:opt+ monitor; K:{k}; C:trap EXIT c4; C:{op}; C:set va 1"));
+            cases.push(format!("T:1; P:trap EXIT c1; P:fdw 10 f2; P:opt+ monitor; K:{k}; K:{k2}; C:{op}; C:fdw 4 f1"));
+            if o.thorough() || v == i % 4 {
+                cases.push(format!("P:fdr 10; P:fdw 3 f1; K:{k}; M:{op}; K:{k2}; C:fdc 10"));
+                cases.push(format!("T:1; I:1; P:opt+ monitor; K:{k2}; K:{k}; C:{op}"));
             }
         }
     }
